@@ -167,8 +167,8 @@ Proof. exact set_mtu_spec. Qed.
 Theorem C09_failure_is_error_client_usable :
   forall o c s mtu,
     ready c s mtu -> sinv s -> args_ok o ->
-    exists out c' s' mtu',
-      run_op o c s = (out, c', s') /\ usable out /\ ready c' s' mtu' /\ sinv s'.
+    exists out c' s',
+      run_op o c s = (out, c', s') /\ usable out /\ ready c' s' (next_mtu o mtu) /\ sinv s'.
 Proof. exact run_op_ready. Qed.
 
 (** "after any outcome the client is able to run the next procedure", over ANY sequence of
@@ -177,9 +177,45 @@ Proof. exact run_op_ready. Qed.
 Theorem C09_client_usable_after :
   forall ops c s mtu,
     ready c s mtu -> sinv s -> Forall args_ok ops ->
-    exists outs c' s' mtu',
-      run_ops ops c s = (outs, c', s') /\ Forall usable outs /\ ready c' s' mtu' /\ sinv s'.
+    exists outs c' s',
+      run_ops ops c s = (outs, c', s') /\ Forall usable outs /\ ready c' s' (mtu_after ops mtu) /\ sinv s'.
 Proof. exact run_ops_ready. Qed.
+
+(** MTU HISTORIES.  Operations include the MTU exchange in both directions: [OSetMtu m]
+    (GattClient.set_mtu) and [OSrvMtu m] (GattServer.set_mtu, handled on the client by
+    GattClient.on_exch_mtu_request).  After ANY history -- exchanges initiated by either end, in
+    any order, with any values (below 23: not sent), mixed with any procedures -- both ends use
+    the same MTU [mtu_after ops mtu] (the value of the last valid exchange; the code keeps the
+    last requested value, it takes no minimum), a long read returns exactly the stored value and
+    a long write to a writable characteristic stores the written bytes (followed by the old
+    tail, the recorded finding). *)
+Theorem C09_any_mtu_history_transfers_exact :
+  forall ops c s mtu,
+    ready c s mtu -> sinv s -> Forall args_ok ops ->
+    exists outs c' s',
+      run_ops ops c s = (outs, c', s') /\ Forall usable outs
+      /\ c_mtu c' = mtu_after ops mtu /\ s_cmtu s' = mtu_after ops mtu /\ 23 <= mtu_after ops mtu
+      /\ (forall h S, (h < 65536)%N -> readable_target (sdb s') h S -> (N.of_nat (length S) < 65536)%N ->
+            client_read_long (read_long_fuel s') h c' s' = (Ok (VBytes S), flush c', s'))
+      /\ (forall h u old p v, value_at (sdb s') h u old p -> writeable p = true ->
+            (N.of_nat (length v) < 65536)%N ->
+            client_write_long h v c' s'
+            = (Ok VTrue, flush c', set_wq (set_db s' (update (sdb s') h (AValue u (v ++ skipn (length v) old)))) [])).
+Proof. exact mtu_history_exact. Qed.
+
+(** a concrete history: server-initiated exchanges above / equal / below the client's value and
+    below 23, interleaved with client-initiated ones; 300 bytes written and read long at each
+    stage come back whole *)
+Theorem C09_mtu_history_example :
+  let v := repeat 6%N 300 in
+  let '(outs, c', s') :=
+    run_ops [OSrvMtu 100; OWrite 3 v; OReadLong 3; OSetMtu 50; OReadLong 3; OSrvMtu 50; OSrvMtu 30;
+             OWriteLong 3 v; OReadLong 3; OSetMtu 247; OSrvMtu 22; OReadLong 3]
+            client_init (server_init d_wit) in
+  nth 2 outs Blocked = Ok (VBytes v) /\ nth 4 outs Blocked = Ok (VBytes v)
+  /\ nth 8 outs Blocked = Ok (VBytes v) /\ nth 11 outs Blocked = Ok (VBytes v)
+  /\ c_mtu c' = 247 /\ s_cmtu s' = 247.
+Proof. exact mtu_history_example. Qed.
 
 (** a procedure that waits for an answer behaves EXACTLY as if the stale command errors were
     not in the queue: all the theorems stated from a [clean] state apply from a [ready] one *)
